@@ -267,6 +267,8 @@ def oracle_cmps(cases, impl):
             if c.kind == 'arr' and 'cm' in a:
                 n += 1
                 ln = 0 if a.get('abs', '-') == '-' else len(a['abs'].split(','))
+                if c.ops[a['i']].startswith('gmut') and a.get('r') == 'N':
+                    pass
                 bound = 0 if ln == 0 else math.ceil(math.log2(ln + 1)) + 1
                 if int(a['cm']) > bound:
                     out.append(Finding('oracle', c, a['i'], 'cost: lookup "%s" in %d elements made %s comparisons (bound %d)' % (c.ops[a['i']], ln, a['cm'], bound)))
@@ -477,6 +479,11 @@ def oracle_pod(cases, impl):
                 exp = 'P' if (len(data) < sz or off % al != 0) else 'O' + data[:sz].hex()
                 if r != exp:
                     bad = 'pod: load of %d-byte type from a slice at offset %d of an aligned buffer gives %s, expected %s (the view must be exactly the first size_of bytes, or the call must be refused)' % (sz, off, r, exp)
+            elif op[0] == 'loadmutnw':
+                sz = int(op[1]); data = unhex(op[2])
+                exp = 'P' if len(data) < sz else 'O' + (data.hex() or '-')
+                if r != exp:
+                    bad = 'pod: load_mut of a %d-byte type without any write changed the buffer: %s, expected %s' % (sz, r, exp)
             elif op[0] == 'loadmut':
                 sz = int(op[1]); data = unhex(op[2]); v = unhex(op[3])
                 exp = 'P' if len(data) < sz else 'O' + (v + data[sz:]).hex()
